@@ -43,6 +43,7 @@ type vhM struct {
 	hsch          vkit.HashScheme
 	unbufferedOut bool     // view outputs unbuffered, as tmengine wires them (consumers can stall)
 	crash         *vhCrash // non-nil: stores are wrapped and "the process stops" after the k-th store write
+	cmsp          gcrypto.CommonMessageSignatureProofScheme // nil: the simple (non-aggregating) scheme
 }
 
 // vhCrash counts mutating store calls; the crashAt-th one is performed and then the calling
@@ -159,6 +160,10 @@ func (e *vhM) restart() error {
 		hst = vhCrashHeaderStore{e.hs, e.crash}
 		rst = vhCrashRoundStore{e.rs, e.crash}
 	}
+	var cmsp gcrypto.CommonMessageSignatureProofScheme = gcrypto.SimpleCommonMessageSignatureProofScheme{}
+	if e.cmsp != nil {
+		cmsp = e.cmsp
+	}
 	m, err := NewMirror(e.ctx, verifrt.Logger(), MirrorConfig{
 		Store:                mst,
 		CommittedHeaderStore: hst,
@@ -170,7 +175,7 @@ func (e *vhM) restart() error {
 
 		HashScheme:                        e.hsch,
 		SignatureScheme:                   vkit.SigScheme{},
-		CommonMessageSignatureProofScheme: gcrypto.SimpleCommonMessageSignatureProofScheme{},
+		CommonMessageSignatureProofScheme: cmsp,
 
 		ProposedHeaderFetcher: tmelink.ProposedHeaderFetcher{
 			FetchRequests:          e.fetchReq,
